@@ -90,7 +90,7 @@ func (p *c20POnly) Count() int   { return p.A + 1 }
 
 type c20Lang string
 
-const c20NFixed = 18
+const c20NFixed = 21
 
 func c20Fixed(t int) interface{} {
 	mv := c20MV{A: 11, Lbl: "mv", hid: "secret"}
@@ -126,6 +126,13 @@ func c20Fixed(t int) interface{} {
 	case -15:
 		// keys whose spelling inside a template string needs escapes
 		return map[string]interface{}{"it's": "apostrophe", "say \"hi\"": "quotes", "C:\\temp": "backslash", "a\tb": "tab", "two words": "space", "name": "plain"}
+	case -19:
+		// structs whose fields are all zero are still structs: fields print 0 / '', methods run
+		return c20MV{}
+	case -20:
+		return c20Deep{}
+	case -21:
+		return c20Addr{}
 	case -16:
 		// keys that look like numbers, canonical and not: each is its own key
 		return map[string]interface{}{"02134": "zip-lead0", "2134": "zip", "+7": "plus7", "7": "seven", "007": "bond", "1": "one", "name": "digits"}
